@@ -36,7 +36,7 @@ REVERSIBLE = {
     "set_objective", "set_direction", "set_obj_coef", "add_cons", "add_var", "remove_cons_vars",
     "knock_out_gene", "set_functional", "knock_out_model_genes", "remove_genes", "rename_genes",
     "medium", "build_from_string", "optimize", "slim_optimize", "enter", "exit", "exit_exc",
-    "copy", "deepcopy", "pickle", "rxn_copy", "rxn_arith", "helper", "merge", "det_mutate", "repair",
+    "copy", "deepcopy", "pickle", "rxn_copy", "rxn_arith", "helper", "merge", "det_mutate", "repair", "config_bounds",
 }
 LIFECYCLE = {"copy", "deepcopy", "pickle"}
 NO_CONTENT_CHANGE = {"optimize", "slim_optimize", "repair", "solver", "tolerance", "rxn_copy", "rxn_arith"}
@@ -803,6 +803,16 @@ class Hist:
             m.objective = items[0]
         elif how == "list":
             m.objective = list(items)
+        elif how == "expr":  # a symbolic expression over flux expressions
+            expr = 0
+            for rid, c in items:
+                expr = expr + c * self.rxn(a, rid).flux_expression
+            m.objective = expr
+        elif how == "optlang":  # a ready-made optlang objective with its own direction
+            expr = 0
+            for rid, c in items:
+                expr = expr + c * self.rxn(a, rid).flux_expression
+            m.objective = m.problem.Objective(expr, direction=op.get("dir", "max"))
         else:
             d = {}
             for rid, c in items:
@@ -916,6 +926,12 @@ class Hist:
 
     def do_tolerance(self, a, op, env):
         a.model.tolerance = op["value"]
+
+    def do_config_bounds(self, a, op, env):
+        from cobra.core.configuration import Configuration
+
+        Configuration().bounds = tuple(op["value"])
+        self.stats["probe:global_default_bounds_changed"] += 1
 
     def do_compartments(self, a, op, env):
         a.model.compartments = dict(op["value"])
@@ -1330,7 +1346,7 @@ ALL_KINDS = {
     "remove_genes": 2, "rename_genes": 1, "medium": 2, "build_from_string": 1, "optimize": 2,
     "slim_optimize": 2, "repair": 1, "solver": 1, "tolerance": 1, "compartments": 1, "add_groups": 1,
     "remove_groups": 1, "enter": 0, "exit": 0, "exit_exc": 0, "copy": 0, "deepcopy": 0, "pickle": 0,
-    "rxn_copy": 1, "rxn_arith": 1, "edit_dict": 1, "restart": 0, "helper": 1, "merge": 1, "readd_reaction": 3, "det_mutate": 1, "prune": 1,
+    "rxn_copy": 1, "rxn_arith": 1, "edit_dict": 1, "restart": 0, "helper": 1, "merge": 1, "readd_reaction": 3, "det_mutate": 1, "prune": 1, "config_bounds": 1,
 }
 
 PROP_BIAS = {
@@ -1589,8 +1605,11 @@ def gen_op(rng, H, sw):
         op.update(rs=rs, remove_orphans=rng.random() < 0.4, via=rng.choice(["model", "model", "rxn"]))
         op["as"] = rng.choice(["obj", "id", "mixed"])
     elif k == "set_objective":
-        how = rng.choice(["id", "rxn", "index", "list", "dict"])
-        if how in ("id", "rxn"):
+        how = rng.choice(["id", "rxn", "index", "list", "dict", "expr", "optlang"])
+        if how in ("expr", "optlang"):
+            items = [[r, rng.choice([1, -1, 2, 0.5])] for r in sorted({rid() for _ in range(rng.randint(1, 2))})]
+            op["dir"] = rng.choice(["max", "min"])
+        elif how in ("id", "rxn"):
             items = [rid() if not inv else "nope"]
         elif how == "index":
             items = [rng.randrange(max(1, len(rids)))]
@@ -1681,6 +1700,8 @@ def gen_op(rng, H, sw):
         op["value"] = rng.choice([1e-7, 1e-6, 1e-9])
     elif k == "compartments":
         op["value"] = rng.choice([{"c": "cyto"}, {"e": "extra", "p": "peri"}, {}])
+    elif k == "config_bounds":
+        op["value"] = rng.choice([[-1000.0, 1000.0], [-10.0, 10.0], [0.0, 100.0], [-99999.0, 99999.0], [-50.0, 500.0]])
     elif k == "add_groups":
         members = [["Reaction", r] for r in rids if rng.random() < 0.3] + [["Metabolite", m] for m in mids if rng.random() < 0.2]
         members += [["Gene", g] for g in gids if rng.random() < 0.2]
